@@ -100,3 +100,21 @@ PROPS["C07"] = {
     ],
     "floor_q": 100, "floor_t": 5000,
 }
+
+RESMGR = "./pkg/resmgr"
+_HIST_RULE = ("cases = generated machine (vfkit topology model written as sysfs) x generated accepted policy configuration x generated request history "
+              "(pods of every QoS class/namespace/annotation set; create/start/update/stop/remove/stop-pod/remove-pod/synchronize/reconfigure/"
+              "re-create-by-name, failed creations with or without the runtime's undo) executed against a real in-process resource manager; ")
+_HIST_ASSUME = [FIXTURE, "generated runtime follows the containerd lifecycle discipline (pod before containers, create-start-stop-remove, containers stopped before their pod)",
+                "NRI objects handed to handlers are deep copies, as a ttrpc server would hand out"]
+
+PROPS["C05"] = {
+    "level": "exploration",
+    "technique": "rapid stateful request histories against a real in-process resource manager; oracle = runtime reference model (initial values overlaid by every adjustment/update/push) compared field by field with the cache after every reply",
+    "rule": _HIST_RULE + "non-trivial = some reply or push carried updates for >= 2 containers other than the request's own; distinct = hash of the whole case",
+    "assumptions": _HIST_ASSUME + ["values written by the kubelet through UpdateContainer are not 'told by the plugin' and are not compared until the plugin sets that field"],
+    "units": [
+        {"name": "ta-histories", "pkg": RESMGR, "run": "^TestVerifC05TA$", "replay_run": "^TestVerifC05Replay$", "q": 200, "t": 40000, "per_proc": 500},
+    ],
+    "floor_q": 5, "floor_t": 200,
+}
